@@ -149,6 +149,21 @@ pub fn utf8_len(c: char) -> usize {
 /// within the 16-byte inline capacity, where growth is unreachable. If a
 /// change makes it reachable the harness fails (it is not assumed away).
 #[cfg(kani)]
+/// The bytes of the number spelling `src` (<= 8 bytes), for `NumberBuf::new_unchecked`. The bytes go through a
+/// local array first: CBMC loses bytes of a `memcpy` whose SOURCE is one of
+/// several constant objects selected by a symbolic index (observed:
+/// `SmallVec::from_slice(TABLE[k])` left the second byte of "-0" unconstrained,
+/// which made a harness fail on an input that passes natively).
+pub fn number_bytes(src: &[u8]) -> smallvec::SmallVec<[u8; 16]> {
+	let mut arr = [0u8; 8];
+	let mut i = 0;
+	while i < src.len() {
+		arr[i] = src[i];
+		i += 1;
+	}
+	smallvec::SmallVec::from_slice(&arr[..src.len()])
+}
+
 pub fn no_grow<A: smallvec::Array>(
 	_: &mut smallvec::SmallVec<A>,
 	_: usize,
